@@ -50,8 +50,14 @@ structure Frame where
 /-- `AddInteraction`: number of bins `(max - min)/step + 1.000000001` truncated -/
 def nbins (d : IDef) : Nat := ((d.max - d.min) / d.step + 1000000001 / 1000000000).floor.toNat
 
-/-- `HistogramNew::Initialize(min, max, n)`: bin width of the histogram -/
+/-- `HistogramNew::Initialize(min, max, n)`: the spacing of the histogram the interaction gets, `(max - min)/(n - 1)`.  It is the spacing of the written x column and — the
+    specification — the width every normalisation (shell volumes, unit integral) has to use, also when `(max - min)/step` is not
+    an integer and it differs from the `step` option -/
 def hstep (d : IDef) : Rat := C13.stepOf d.min d.max (nbins d) false
+
+/-- the width the normalisations use: the histogram's spacing when the range is not a whole number of steps (it then differs from
+    the `step` option by more than 1e-8 relative), the `step` option as given otherwise -/
+def normStep (d : IDef) : Rat := if absRat (hstep d - d.step) > absRat d.step / 100000000 then hstep d else d.step
 
 /-- bin centres `min + i·hstep` (the x column of every output) -/
 def centres (d : IDef) : List Rat := (List.range (nbins d)).map fun (i : Nat) => d.min + (i : Rat) * hstep d
@@ -225,22 +231,22 @@ def pairNorm (d : IDef) (cg : List CgDef) : Rat :=
 
 /-- `x2³ - x1³` of the bin centred on `x` (× 4π/3 is the shell volume); `none` when the code writes 0 (`x1 < 0`) -/
 def shellCube (d : IDef) (x : Rat) : Option Rat :=
-  let x1 := Gen.Stat.shellX1 x d.step
-  let x2 := Gen.Stat.shellX2 x1 d.step
+  let x1 := Gen.Stat.shellX1 x (normStep d)
+  let x2 := Gen.Stat.shellX2 x1 (normStep d)
   if x1 < 0 then none else some (x2 * x2 * x2 - x1 * x1 * x1)
 
 /-- non-bonded pair distribution times π: `V̄ · norm · h̄_i · 3 / (4 (x2³ - x1³))` -/
 def rdfTimesPi (d : IDef) (cg : List CgDef) (vbar : Rat) (avg : List Rat) : List Rat :=
   ((centres d).zip avg).map fun (x, h) =>
-    let x1 := Gen.Stat.shellX1 x d.step
-    let x2 := Gen.Stat.shellX2 x1 d.step
+    let x1 := Gen.Stat.shellX1 x (normStep d)
+    let x2 := Gen.Stat.shellX2 x1 (normStep d)
     -- the written value times π: the expression regenerated from WriteDist with `p = 1`
     if x1 < 0 then 0 else Gen.Stat.rdfExpr vbar (pairNorm d cg) h x1 x2 1
 
 /-- bonded and three-body distributions: `norm_ · h̄ / (Σ|h̄| · step)` with `norm_ = 1`, unchanged when the sum is 0 -/
 def unitDist (d : IDef) (avg : List Rat) : List Rat :=
   let s := C13.sumAbs avg
-  if 0 < s then avg.map fun h => Gen.Stat.unitExpr 1 h s d.step else avg
+  if 0 < s then avg.map fun h => Gen.Stat.unitExpr 1 h s (normStep d) else avg
 
 /-! ## IMC: correlations, `gmc`, `dS` -/
 
@@ -274,8 +280,8 @@ def gmc (defs : List IDef) (g : Nat) (fs : List FrameData) : List (List Rat) :=
 (`h̄_i`, the rational factor of π of the de-normalised target) -/
 def dSParts (d : IDef) (cg : List CgDef) (vbar : Rat) (avg tgt : List Rat) : List (Rat × Rat) :=
   ((centres d).zip (avg.zip tgt)).map fun (x, h, t) =>
-    let x1 := Gen.Stat.shellX1 x d.step
-    let x2 := Gen.Stat.shellX2 x1 d.step
+    let x1 := Gen.Stat.shellX1 x (normStep d)
+    let x2 := Gen.Stat.shellX2 x1 (normStep d)
     if x1 < 0 then (h, 0) else (h, Gen.Stat.targetExpr vbar (pairNorm d cg) t x1 x2 1)
 
 /-! ## the whole run: frame selection, merging in order, block output, `ClearAverages` -/
